@@ -29,6 +29,35 @@ func ZZ_C07_Step() {
 	vx.DBPut("imsi-"+sub1, rg1, "quota", strconv.FormatInt(q1, 10))
 	vx.DBPut("imsi-"+sub2, rg2, "quota", strconv.FormatInt(q2, 10))
 
+	// The server uses one handler instance for all requests: an earlier
+	// request (none, a reservation within the balance, or one that exhausts
+	// it) on account 2 precedes the request under test.
+	handler := handleCCR()
+	conn, _ := vx.DiamConn().(diam.Conn)
+	if prior := vx.Choice("prior", 3); prior > 0 {
+		vx.Assume(q2 >= 0)
+		vx.Assume(q2 < 1<<62)
+		pa := vx.Uint64("prior.amount")
+		vx.Assume(pa < 1<<62)
+		if prior == 1 {
+			vx.Assume(int64(pa) <= q2)
+		} else {
+			vx.Assume(int64(pa) > q2)
+		}
+		var first charging_datatype.AccountDebitRequest
+		first.CcRequestType = charging_datatype.UPDATE_REQUEST
+		first.RequestedAction = charging_datatype.DIRECT_DEBITING
+		first.SubscriptionId = &charging_datatype.SubscriptionId{SubscriptionIdType: charging_datatype.END_USER_IMSI, SubscriptionIdData: datatype.UTF8String(sub2)}
+		first.MultipleServicesCreditControl = &charging_datatype.MultipleServicesCreditControl{RatingGroup: datatype.Unsigned32(rg2),
+			RequestedServiceUnit: &charging_datatype.RequestedServiceUnit{CCTotalOctets: datatype.Unsigned64(pa)}}
+		m0 := diam.NewRequest(272, 4, nil)
+		vx.Assert("prior request marshals", m0.Marshal(&first) == nil)
+		handler(conn, m0)
+		// the table state the request under test starts from
+		s2, _ := vx.DBGet("imsi-"+sub2, rg2, "quota")
+		q2, _ = strconv.ParseInt(s2, 10, 64)
+	}
+
 	// the request
 	var ccr charging_datatype.AccountDebitRequest
 	ccr.SessionId = datatype.UTF8String(vx.String("session", 2))
@@ -82,8 +111,7 @@ func ZZ_C07_Step() {
 
 	msg := diam.NewRequest(272, 4, nil)
 	vx.Assert("request marshals", msg.Marshal(&ccr) == nil)
-	conn, _ := vx.DiamConn().(diam.Conn)
-	handleCCR()(conn, msg)
+	handler(conn, msg)
 
 	var cca charging_datatype.AccountDebitResponse
 	answered := vx.LastAnswer(&cca)
